@@ -33,7 +33,10 @@ RAW_POOL = ["      x = 1", "     1   + 2", "C comment", "c", "*", "! x", "  ! y"
             # whitespace-only lines of every kind
             "       ", "        ", " " * 20, " " * 66, " " * 72, " " * 73, " " * 74, " " * 80, "\t", "      \t",
             "\t\t\t\t\t\t\t", " ", "  ", "    ", "     1", "     1 ", "     !", "      ! only a comment",
-            "c$omp parallel do", "c$omp& private(x) ! c", "*$OMP  end", "   10", "12345", "  end", "   10 "]
+            "c$omp parallel do", "c$omp& private(x) ! c", "*$OMP  end", "C$OMP parallel do ! note",
+            "!$omp+ if ('a!b' == s) ! c", "c$omp&",
+            "c$omp parallel do                                                       SEQ00080",
+            "c$omp& shared(y)  ! c                                                   SEQ00090", "   10", "12345", "  end", "   10 "]
 
 
 def nlines(lines):
